@@ -434,3 +434,6 @@ pub struct SkippedThenBound<T> {
     pub marker: PhantomData<T>,
     pub n: u8,
 }
+
+/// the generated combinatorial family (tools/gen_fixtures.py)
+pub mod generated;
